@@ -45,8 +45,11 @@ def gen_cases(tier, seed):
     for i in range({'quick': 3, 'thorough': 12}[tier]):
         yield {'family': 'one_resource_two_tables', 'idx': i, 'seed': seed}
     # ONE Flow object whose first run breaks off mid-stream (a step after the dump fails once) and which is run again
-    for i in range({'quick': 4, 'thorough': 24}[tier]):
+    for i in range({'quick': 8, 'thorough': 32}[tier]):
         yield {'family': 'retry_same_flow', 'idx': i, 'seed': seed}
+    # ONE table-configuration dict (the caller's) used for dumps of resources whose primary keys differ
+    for i in range({'quick': 2, 'thorough': 8}[tier]):
+        yield {'family': 'shared_config', 'idx': i, 'seed': seed}
     # the caller's own Engine object (an in-memory database lives exactly as long as the engine's connection)
     for i in range({'quick': 4, 'thorough': 24}[tier]):
         yield {'family': 'caller_engine', 'idx': i, 'seed': seed}
@@ -240,8 +243,16 @@ def run_retry(case):
     fail_at = rng.randrange(n)
     batch = rng.choice([1, 2, 1000])
     counters = {'tables_compared': 0, 'flags_compared': 0}
-    cfg = {'rows': n, 'first_attempt_fails_at_row': fail_at, 'batch_size': batch}
+    # (append: the failing step sits BEFORE the dump, so the first attempt breaks off after some batches went to the database)
+    rmode = boot.rng(case['seed'], 'C20', 'retry/mode', case['idx']).choice(['rewrite', 'append'])
+    cfg = {'rows': n, 'first_attempt_fails_at_row': fail_at, 'batch_size': batch, 'mode': rmode}
     state = {'attempt': 0, 'armed': True}
+    prior = []
+    if rmode == 'append':
+        prior = [{'id': 1000 + i, 'attempt': 0} for i in range(3)]
+        with boot.quiet():
+            d.Flow(lab.source('res', [{'name': 'id', 'type': 'integer'}, {'name': 'attempt', 'type': 'integer'}], prior),
+                   d.dump_to_sql({'tbl': {'resource-name': 'res', 'mode': 'rewrite'}}, engine=engine)).process()
 
     def src(package):
         package.pkg.add_resource({'name': 'res', 'path': 'res.csv', 'schema': {'fields': [
@@ -258,8 +269,9 @@ def run_retry(case):
                 raise RuntimeError('a later step failed (first attempt only)')
             yield row
     with boot.quiet():
-        flow = d.Flow(src, d.dump_to_sql({'tbl': {'resource-name': 'res', 'mode': 'rewrite'}}, engine=engine,
-                                         updated_column='_upd', batch_size=batch), failing_once)
+        dump_ = d.dump_to_sql({'tbl': {'resource-name': 'res', 'mode': rmode}}, engine=engine,
+                              updated_column='_upd', batch_size=batch)
+        flow = d.Flow(src, dump_, failing_once) if rmode == 'rewrite' else d.Flow(src, failing_once, dump_)
     viol = []
     try:
         with boot.quiet():
@@ -286,11 +298,49 @@ def run_retry(case):
                          % (cfg, got[:4], want[:4])})
         tab = _table(dbfile, 'tbl')
         counters['tables_compared'] += 1
-        if tab is None or sorted((r['id'], r['attempt']) for r in tab) != [(i, 2) for i in range(n)]:
+        want_tab = sorted([(i, 2) for i in range(n)] + [(r['id'], 0) for r in prior])
+        if tab is None or sorted((r['id'], r['attempt']) for r in tab) != want_tab:
             viol.append({'kind': 'table_state', 'mech': 'retry_same_flow/table_state', 'config': cfg,
-                         'msg': '%r: after the second run (rewrite) the table holds %r' % (cfg, tab and tab[:4])})
+                         'msg': '%r: after the second run (%s) the table holds %d rows %r, the previous rows plus the rows of the run '
+                         'that dumped are %d' % (cfg, rmode, len(tab or []), tab and sorted((r['id'], r['attempt']) for r in tab)[:6], len(want_tab))})
     return dict(nontrivial=True, violations=viol, counters=counters,
-                cov={'mode_seq': {'retry_same_flow': 1}, 'config': {'retry_same_flow/batch%d' % batch: 1}},
+                cov={'mode_seq': {'retry_same_flow/' + rmode: 1}, 'config': {'retry_same_flow/batch%d' % batch: 1}},
+                sample={'config': cfg})
+
+
+def run_shared_config(case):
+    d = lab.df()
+    rng = boot.rng(case['seed'], 'C20', 'shared_config', case['idx'])
+    counters = {'tables_compared': 0, 'flags_compared': 0}
+    config = {'tbl': {'resource-name': 'res', 'mode': 'update'}}        # no update_keys: the primary key of the resource
+    order = [['sku'], ['sku', 'region']] if case['idx'] % 2 == 0 else [['sku', 'region'], ['sku']]
+    cfg = {'one_config_dict_for_dumps_with_primary_keys': order, 'mode': 'update'}
+    F = [{'name': 'sku', 'type': 'string'}, {'name': 'region', 'type': 'string'}, {'name': 'qty', 'type': 'integer'}]
+    viol = []
+    for di, pk in enumerate(order):
+        dbfile = os.path.abspath('sc%d.db' % di)
+        rows = [{'sku': 's%d' % (i % 2), 'region': 'r%d' % (i // 2), 'qty': rng.randint(1, 9)} for i in range(4)]
+        if pk == ['sku']:
+            rows = rows[:2]
+        first = [dict(r, qty=0) for r in rows]
+        for batch_rows in (first, rows):
+            out = lab.run([lab.source('res', F, batch_rows), d.set_primary_key(list(pk)),
+                           d.dump_to_sql(config, engine='sqlite:///' + dbfile)])
+            if not out.ok:
+                viol.append({'kind': 'dump_failed', 'mech': 'shared_config/dump_failed', 'config': cfg,
+                             'msg': '%r: dump with primary key %r failed: %s' % (cfg, pk, out.errstr())})
+                break
+        else:
+            tab = _table(dbfile, 'tbl')
+            counters['tables_compared'] += 1
+            got = sorted((r['sku'], r['region'], r['qty']) for r in (tab or []))
+            want = sorted((r['sku'], r['region'], r['qty']) for r in rows)
+            if got != want:
+                viol.append({'kind': 'table_state', 'mech': 'shared_config/table_state', 'config': cfg,
+                             'msg': '%r: after two update dumps keyed by %r the table holds %r, one row per key with the latest values is %r'
+                             % (cfg, pk, got, want)})
+    return dict(nontrivial=True, violations=viol, counters=counters,
+                cov={'mode_seq': {'shared_config/%s' % '>'.join('+'.join(p_) for p_ in order): 1}, 'config': {'shared_config': 1}},
                 sample={'config': cfg})
 
 
@@ -345,6 +395,8 @@ def run_case(case):
         return run_retry(case)
     if case['family'] == 'caller_engine':
         return run_caller_engine(case)
+    if case['family'] == 'shared_config':
+        return run_shared_config(case)
     if case['family'] == 'same_flow':
         return run_same_flow(case)
     if case['family'] == 'one_resource_two_tables':
